@@ -109,6 +109,7 @@ def _leaf_fn(I, leaf):
                 exp = concretize_py(py, mm) if py is not None else {leaf.kind: leaf.value}
                 hit = None
                 for f in findings:
+                    if f.get('query') and f['query'] != q.name: continue      # a finding may be tied to one query only
                     reg = finding_region(f, a, prop.region_env(a, sl) if hasattr(prop, 'region_env') else None)
                     if z3.is_true(mm.eval(reg, model_completion=True)):
                         hit = (f, reg); break
